@@ -18,6 +18,7 @@ import (
 var unquoteToken = token.ByType(token.UNQUOTE)
 
 func (s *State) evalAssignment(right object.Object, node *ast.InfixExpression) object.Object {
+	right = object.CopyRegister(right) // assign the current value of an integer parameter/loop variable, not its register.
 	if rt := right.Type(); rt == object.ERROR {
 		log.Warnf("Not assigning %q", right.Inspect())
 		return right
@@ -540,6 +541,7 @@ func (s *State) evalBuiltin(node *ast.Builtin) object.Object {
 	}
 	switch t {
 	case token.CATCH:
+		val = object.Value(val)
 		isError := rt == object.ERROR
 		if isError {
 			val = object.String{Value: val.(object.Error).Value}
